@@ -8,6 +8,10 @@
   attribute database, `B` the outcome of service / accessory callbacks, every `Query` carries the
   behaviour of its characteristic (`valid` = normalisation, `cb` = its setter callback).
   `charCalls / svcCalls / accCalls` read the callback log of the request.
+  A batch `qs` is ANY list of entries: the same characteristic may be named more than once (then
+  `LastEntry expired qs q` says that `q` is the last answered entry naming `q.id` — with pairwise
+  distinct ids, `Distinct qs`, every answered entry is one, `lastEntry_of_distinct`) and an entry may name
+  something that is not a characteristic (`T.known q.id = false`).
 -/
 import Proofs.Writes
 import Proofs.HandlerConsts
@@ -15,112 +19,257 @@ namespace Hap.Writes
 
 /-- The HAP status codes found in pyhap/const.py *now* (regenerated on every run). -/
 theorem C10_status_codes :
-    Hap.Gen.Handler.status_SUCCESS = 0 ∧
-    Hap.Gen.Handler.status_SERVICE_COMMUNICATION_FAILURE = -70402 ∧
-    Hap.Gen.Handler.status_INVALID_VALUE_IN_REQUEST = -70410 ∧
+    Hap.Gen.Handler.status_SUCCESS = OK ∧
+    Hap.Gen.Handler.status_SERVICE_COMMUNICATION_FAILURE = FAIL ∧
+    Hap.Gen.Handler.status_INVALID_VALUE_IN_REQUEST = INVALID ∧
+    Hap.Gen.Handler.status_RESOURCE_DOES_NOT_EXIST = NOEXIST ∧
     Hap.Gen.Handler.status_INSUFFICIENT_PRIVILEGES = -70401 := by decide
 
+/-- **Each written characteristic gets one status.** In every request (executed or refused), for every
+    batch — repeated characteristics and nonexistent ids included — the answer holds exactly one
+    entry for every characteristic named by an answered entry (an entry with a value; any entry when the
+    timed write is refused), namely the result of the LAST entry naming it, and no entry for anything else. -/
+theorem C10_one_status (T : Topo) (B : Behav) (expired : Bool) (vals : CharId → Val) (qs : List Query) :
+    (∀ q, LastEntry expired qs q →
+      (setChars true true T B expired vals qs).chars.filter (fun x => x.1 = q.id)
+        = [(q.id, entryRes true expired T B q)]) ∧
+    (∀ q ∈ qs, answered expired q = true →
+      ∃ r, (setChars true true T B expired vals qs).chars.filter (fun x => x.1 = q.id) = [(q.id, r)]) ∧
+    (∀ c, (∀ q ∈ qs, answered expired q = true → q.id ≠ c) →
+      (setChars true true T B expired vals qs).chars.filter (fun x => x.1 = c) = []) := by
+  obtain ⟨results, he, hn⟩ := keys_chars_pre true true T B expired vals qs
+  have h1 : ∀ q, LastEntry expired qs q →
+      (setChars true true T B expired vals qs).chars.filter (fun x => x.1 = q.id)
+        = [(q.id, entryRes true expired T B q)] := by
+    intro q hl
+    have hm : (q.id, entryRes true expired T B q) ∈ (setChars true true T B expired vals qs).chars :=
+      (mem_chars ..).2 ⟨q, hl, rfl⟩
+    rw [he] at hm ⊢
+    rw [filter_key_assemble]
+    exact filter_key_of_nodup_keys _ hn _ _ ((mem_assemble _ _).1 hm)
+  refine ⟨h1, ?_, ?_⟩
+  · intro q hq ha
+    obtain ⟨b, hb, hk⟩ := lastEntry_exists expired qs q hq ha
+    exact ⟨entryRes true expired T B b, by rw [← hk]; exact h1 b hb⟩
+  · intro c hc
+    rw [List.filter_eq_nil_iff]
+    intro x hx hxc
+    obtain ⟨q, hl, rfl⟩ := (mem_chars ..).1 hx
+    have hm := List.mem_filter.1 hl.mem
+    simp only [decide_eq_true_eq] at hxc
+    exact hc q hm.1 hm.2 hxc
 
-/-- **Success means done.** In an executed request over distinct characteristics, an entry answered
-    with status 0 was validated (`valid = some n`), the normalised value `n` is the stored value after
-    the request, its own callback (if any) ran exactly once, with `n`, and did not raise, and the
-    callbacks of its service and of its accessory (if any) each ran exactly once in this request,
-    did not raise, and were handed this characteristic with the same normalised value `n`. -/
-theorem C10_status (T : Topo) (B : Behav) (vals : CharId → Val) (qs : List Query) (hd : Distinct qs)
+/-- **Success means done.** In an executed request, for ANY batch: an answer entry with status 0 for
+    characteristic `c` comes from the last entry `q` naming `c`; `c` exists; `q` carried a value that was
+    validated (`valid = some n`); the normalised value `n` is the stored value after the request; the
+    characteristic's own callback (if any) did not raise and its last invocation in this request was with
+    `n` — its only one when the batch names no characteristic twice; and the callbacks of its service and
+    of its accessory (if any) each ran exactly once in this request, did not raise, and were handed this
+    characteristic with the normalised value `n` and no other value. -/
+theorem C10_status (T : Topo) (B : Behav) (vals : CharId → Val) (qs : List Query)
+    (c : CharId) (r : Res)
+    (hr : (c, r) ∈ (setChars true true T B false vals qs).chars) (h0 : r.status = OK) :
+    ∃ q v n pre, LastEntry false qs q ∧ q.id = c ∧ T.known c = true ∧
+      q.hasValue = true ∧ q.value = some v ∧ q.valid = some n ∧
+      (setChars true true T B false vals qs).vals c = n ∧
+      q.cb ≠ CharCb.raises ∧
+      charCalls (setChars true true T B false vals qs).log c
+        = pre ++ (if q.cb = CharCb.absent then [] else [n]) ∧
+      (Distinct qs → pre = []) ∧
+      (T.svcCb c.aid (T.svc c) = true →
+        B.svcRaises c.aid (T.svc c) = false ∧
+        ∃ args, svcCalls (setChars true true T B false vals qs).log c.aid (T.svc c) = [args] ∧
+          (c, some n) ∈ args ∧ ∀ w, (c, w) ∈ args → w = some n) ∧
+      (T.accCb c.aid = true →
+        B.accRaises c.aid = false ∧
+        ∃ args g, accCalls (setChars true true T B false vals qs).log c.aid = [args] ∧
+          (T.svc c, g) ∈ args ∧ (c, some n) ∈ g ∧ ∀ w, (c, w) ∈ g → w = some n) := by
+  obtain ⟨q, hl, hx⟩ := (mem_chars true true T B false vals qs (c, r)).1 hr
+  have hid : q.id = c := (congrArg Prod.fst hx).symm
+  have hres : r = entryRes true false T B q := congrArg Prod.snd hx
+  subst hid
+  have hk : T.known q.id = true := by
+    by_cases hk : T.known q.id = true
+    · exact hk
+    · rw [hres] at h0; simp [entryRes, res0, hk, NOEXIST, OK] at h0
+  -- the status
+  have hst : ov (override T B q.id) (res0 true false T q).status = 0 := by
+    have := h0; rw [hres] at this; simpa [entryRes, hk, OK] using this
+  obtain ⟨hs0, hov⟩ := ov_eq_zero hst
+  obtain ⟨hsv, hac⟩ := pyOr_ok hov
+  -- the setter ran and succeeded
+  have hruns : runs true false T q = true := by
+    by_cases h : runs true false T q = true
+    · exact h
+    · simp [res0, hk, h, INVALID] at hs0
+  have hval : ∃ v, q.hasValue = true ∧ q.value = some v := by
+    simp only [runs, hk, qvalue, Bool.not_true, Bool.not_false, Bool.or_true, Bool.and_true, Bool.true_and] at hruns
+    by_cases h : q.hasValue = true
+    · simp only [h, if_true] at hruns
+      cases hv : q.value with
+      | none => simp [hv] at hruns
+      | some v => exact ⟨v, h, rfl⟩
+    · simp [h] at hruns
+  obtain ⟨v, hhas, hv⟩ := hval
+  have hco : (charOutcome q).1 = 0 := by
+    have : (res0 true false T q).status = (charOutcome q).1 := by
+      simp only [res0, hk, hruns, if_true, Bool.not_true, Bool.false_eq_true, if_false]
+      by_cases h2 : ((charOutcome q).2.isSome && q.wr) = true <;> simp [h2]
+    rw [← this]; exact hs0
+  have hvalid : ∃ n, q.valid = some n ∧ q.cb ≠ CharCb.raises := by
+    unfold charOutcome at hco
+    cases hvd : q.valid with
+    | none => simp [hvd, FAIL] at hco
+    | some n =>
+      refine ⟨n, rfl, ?_⟩
+      intro hc; simp [hvd, hc, FAIL] at hco
+  obtain ⟨n, hn, hcb⟩ := hvalid
+  obtain ⟨l1, l2, hsplit, hno2, hno1⟩ := running_split true false T qs q hl hruns
+  -- membership of the entry in the collected updates
+  have hupv : upValue true true false T q = some n := by
+    simp [upValue, hruns, hco, OK, hn]
+  have hups : (q.id, some n) ∈ upsOf true true false T qs := by
+    rw [mem_upsOf]
+    exact ⟨q, lastEntry_collected true false T qs q hl hk rfl, by rw [hupv]⟩
+  have huniq : ∀ w, (q.id, w) ∈ upsOf true true false T qs → w = some n :=
+    fun w hw => value_unique_of_nodup_keys _ (nodup_upsOf ..) _ _ _ hw hups
+  have hacc : q.id.aid ∈ accsOf (upsOf true true false T qs) := (mem_accsOf _ _).2 ⟨_, hups, rfl⟩
+  have hsvc : T.svc q.id ∈ svcsOf T (upsOf true true false T qs) q.id.aid :=
+    (mem_svcsOf _ _ _ _).2 ⟨_, hups, rfl, rfl⟩
+  have hgrp : (q.id, some n) ∈ svcGroup T (upsOf true true false T qs) q.id.aid (T.svc q.id) := by
+    simp [svcGroup, List.mem_filter, hups]
+  have hgu : ∀ w, (q.id, w) ∈ svcGroup T (upsOf true true false T qs) q.id.aid (T.svc q.id) → w = some n :=
+    fun w hw => huniq w (List.mem_filter.1 hw).1
+  refine ⟨q, v, n, charCalls (l1.filterMap called) q.id, hl, rfl, hk, hhas, hv, hn, ?_, hcb, ?_, ?_, ?_, ?_⟩
+  · rw [setChars_vals, hsplit, storeAll_append]
+    simp only [storeAll]
+    rw [storeAll_not_mem _ _ _ hno2]
+    simp [store, hn]
+  · rw [setChars_log, charCalls_append, charCalls_pass, List.append_nil, hsplit, List.filterMap_append,
+      charCalls_append]
+    have hc : (q :: l2).filterMap called = (called q).toList ++ l2.filterMap called := by
+      simp only [List.filterMap_cons]; cases called q <;> simp
+    rw [hc, charCalls_append, charCalls_called, charCalls_loop_not_mem _ _ hno2, List.append_nil]
+    unfold calledVal
+    cases hcq : q.cb <;> simp_all
+  · intro hd
+    exact charCalls_loop_not_mem _ _ (hno1 hd)
+  · intro hcbs
+    refine ⟨?_, svcGroup T (upsOf true true false T qs) q.id.aid (T.svc q.id), ?_, hgrp, hgu⟩
+    · have : svcRes T B q.id.aid (T.svc q.id) = some (cbResult (B.svcRaises q.id.aid (T.svc q.id))) := by
+        simp [svcRes, hcbs]
+      rw [this] at hsv; exact cbResult_ok hsv
+    · rw [setChars_log, svcCalls_append, (upperCalls_loop _ _ _).1, List.nil_append, svcCalls_pass]
+      simp [hacc, hsvc, hcbs]
+  · intro hcba
+    refine ⟨?_, (svcsOf T (upsOf true true false T qs) q.id.aid).map
+        (fun s => (s, svcGroup T (upsOf true true false T qs) q.id.aid s)),
+      svcGroup T (upsOf true true false T qs) q.id.aid (T.svc q.id), ?_, ?_, hgrp, hgu⟩
+    · have : accRes T B q.id.aid = some (cbResult (B.accRaises q.id.aid)) := by
+        simp [accRes, hcba]
+      rw [this] at hac; exact cbResult_ok hac
+    · rw [setChars_log, accCalls_append, (upperCalls_loop _ _ 0).2, List.nil_append, accCalls_pass]
+      simp [hacc, hcba]
+    · exact List.mem_map.2 ⟨T.svc q.id, hsvc, rfl⟩
+
+/-- `C10_status` for a batch that names no characteristic twice, entry by entry: an entry answered 0 was
+    validated, its normalised value is stored, and the characteristic, service and accessory callbacks
+    each ran EXACTLY ONCE with it and did not raise. -/
+theorem C10_status_distinct (T : Topo) (B : Behav) (vals : CharId → Val) (qs : List Query) (hd : Distinct qs)
     (q : Query) (hq : q ∈ qs) (r : Res)
     (hr : (q.id, r) ∈ (setChars true true T B false vals qs).chars) (h0 : r.status = OK) :
-    ∃ v n, q.hasValue = true ∧ q.value = some v ∧ q.valid = some n ∧
+    ∃ v n, T.known q.id = true ∧ q.hasValue = true ∧ q.value = some v ∧ q.valid = some n ∧
       (setChars true true T B false vals qs).vals q.id = n ∧
       q.cb ≠ CharCb.raises ∧
       charCalls (setChars true true T B false vals qs).log q.id = (if q.cb = CharCb.absent then [] else [n]) ∧
       (T.svcCb q.id.aid (T.svc q.id) = true →
         B.svcRaises q.id.aid (T.svc q.id) = false ∧
         ∃ args, svcCalls (setChars true true T B false vals qs).log q.id.aid (T.svc q.id) = [args] ∧
-          (q.id, some n) ∈ args) ∧
+          (q.id, some n) ∈ args ∧ ∀ w, (q.id, w) ∈ args → w = some n) ∧
       (T.accCb q.id.aid = true →
         B.accRaises q.id.aid = false ∧
         ∃ args g, accCalls (setChars true true T B false vals qs).log q.id.aid = [args] ∧
-          (T.svc q.id, g) ∈ args ∧ (q.id, some n) ∈ g) := by
-  obtain ⟨q', hq', ha', hx⟩ := (mem_chars true true T B false vals qs (q.id, r)).1 hr
-  have hid : q'.id = q.id := (congrArg Prod.fst hx).symm
-  have hqq : q' = q := distinct_inj hd hq hq' hid
-  subst hqq
-  have hres : r = entryRes true false T B q' := congrArg Prod.snd hx
-  -- the status
-  have hst : ov (override T B q'.id) (res0 true false q').status = 0 := by
-    have := h0; rw [hres] at this; simpa [entryRes, OK] using this
-  obtain ⟨hs0, hov⟩ := ov_eq_zero hst
-  obtain ⟨hsv, hac⟩ := pyOr_ok hov
-  -- the setter ran and succeeded
-  have hruns : runs true false q' = true := by
-    by_cases h : runs true false q' = true
-    · exact h
-    · simp [res0, h, INVALID] at hs0
-  have hval : ∃ v, q'.hasValue = true ∧ q'.value = some v := by
-    simp only [runs, qvalue, Bool.not_true, Bool.not_false, Bool.or_true, Bool.and_true] at hruns
-    by_cases h : q'.hasValue = true
-    · simp only [h, if_true] at hruns
-      cases hv : q'.value with
-      | none => simp [hv] at hruns
-      | some v => exact ⟨v, h, rfl⟩
-    · simp [h] at hruns
-  obtain ⟨v, hhas, hv⟩ := hval
-  have hco : (charOutcome q').1 = 0 := by
-    have : (res0 true false q').status = (charOutcome q').1 := by
-      simp only [res0, hruns, if_true]
-      by_cases h2 : ((charOutcome q').2.isSome && q'.wr) = true <;> simp [h2]
-    rw [← this]; exact hs0
-  have hvalid : ∃ n, q'.valid = some n ∧ q'.cb ≠ CharCb.raises := by
-    unfold charOutcome at hco
-    cases hvd : q'.valid with
-    | none => simp [hvd, FAIL] at hco
-    | some n =>
-      refine ⟨n, rfl, ?_⟩
-      intro hc; simp [hvd, hc, FAIL] at hco
-  obtain ⟨n, hn, hcb⟩ := hvalid
-  have hmemf : q' ∈ qs.filter (fun q => answered false q && runs true false q) := by
-    simp [List.mem_filter, hq, ha', hruns]
-  have hdf : Distinct (qs.filter (fun q => answered false q && runs true false q)) := hd.filter _
-  -- membership of the entry in the collected updates
-  have hupv : upValue true true false q' = some n := by
-    simp [upValue, hruns, hco, OK, hn]
-  have hups : (q'.id, some n) ∈ upsOf true true false qs := by
-    simp only [upsOf, Bool.and_false, Bool.false_eq_true, if_false, List.mem_map, List.mem_filter]
-    exact ⟨q', ⟨hq, ha'⟩, by rw [hupv]⟩
-  have hacc : q'.id.aid ∈ accsOf (upsOf true true false qs) := (mem_accsOf _ _).2 ⟨_, hups, rfl⟩
-  have hsvc : T.svc q'.id ∈ svcsOf T (upsOf true true false qs) q'.id.aid :=
-    (mem_svcsOf _ _ _ _).2 ⟨_, hups, rfl, rfl⟩
-  have hgrp : (q'.id, some n) ∈ svcGroup T (upsOf true true false qs) q'.id.aid (T.svc q'.id) := by
-    simp [svcGroup, List.mem_filter, hups]
-  refine ⟨v, n, hhas, hv, hn, ?_, hcb, ?_, ?_, ?_⟩
-  · rw [setChars_vals]; exact storeAll_of_mem _ _ _ _ hdf hmemf hn
-  · rw [setChars_log, charCalls_append, charCalls_pass, List.append_nil,
-      charCalls_loop_of_mem _ _ hdf hmemf]
-    unfold calledVal
-    cases hc : q'.cb <;> simp_all
-  · intro hcbs
-    refine ⟨?_, svcGroup T (upsOf true true false qs) q'.id.aid (T.svc q'.id), ?_, hgrp⟩
-    · have : svcRes T B q'.id.aid (T.svc q'.id) = some (cbResult (B.svcRaises q'.id.aid (T.svc q'.id))) := by
-        simp [svcRes, hcbs]
-      rw [this] at hsv; exact cbResult_ok hsv
-    · rw [setChars_log, svcCalls_append, (upperCalls_loop _ _ _).1, List.nil_append, svcCalls_pass]
-      simp [hacc, hsvc, hcbs]
-  · intro hcba
-    refine ⟨?_, (svcsOf T (upsOf true true false qs) q'.id.aid).map (fun s => (s, svcGroup T (upsOf true true false qs) q'.id.aid s)),
-      svcGroup T (upsOf true true false qs) q'.id.aid (T.svc q'.id), ?_, ?_, hgrp⟩
-    · have : accRes T B q'.id.aid = some (cbResult (B.accRaises q'.id.aid)) := by
-        simp [accRes, hcba]
-      rw [this] at hac; exact cbResult_ok hac
-    · rw [setChars_log, accCalls_append, (upperCalls_loop _ _ 0).2, List.nil_append, accCalls_pass]
-      simp [hacc, hcba]
-    · exact List.mem_map.2 ⟨T.svc q'.id, hsvc, rfl⟩
+          (T.svc q.id, g) ∈ args ∧ (q.id, some n) ∈ g ∧ ∀ w, (q.id, w) ∈ g → w = some n) := by
+  obtain ⟨q', v, n, pre, hl, hid, hk, hhas, hv, hn, hvals, hcb, hcalls, hpre, hs, ha⟩ :=
+    C10_status T B vals qs q.id r hr h0
+  have hq' : q' ∈ qs := (List.mem_filter.1 hl.mem).1
+  have : q' = q := distinct_inj hd hq hq' hid
+  subst this
+  refine ⟨v, n, hk, hhas, hv, hn, hvals, hcb, ?_, hs, ha⟩
+  rw [hcalls, hpre hd, List.nil_append]
 
+/-- **A failing characteristic does not stop the others.** Whatever else the batch contains — entries
+    rejected by validation, raising callbacks, nonexistent characteristics, failing services elsewhere —
+    an entry (the last one naming its characteristic) whose value is acceptable, whose own callback does
+    not raise and whose service and accessory callbacks do not raise is answered status 0; by `C10_status`
+    it was then carried out completely. -/
+theorem C10_failing_does_not_stop_others (T : Topo) (B : Behav) (vals : CharId → Val) (qs : List Query)
+    (q : Query) (hl : LastEntry false qs q) (hk : T.known q.id = true)
+    (v n : Val) (hhas : q.hasValue = true) (hv : q.value = some v) (hn : q.valid = some n)
+    (hcb : q.cb ≠ CharCb.raises)
+    (hs : T.svcCb q.id.aid (T.svc q.id) = true → B.svcRaises q.id.aid (T.svc q.id) = false)
+    (ha : T.accCb q.id.aid = true → B.accRaises q.id.aid = false) :
+    ∃ r, (q.id, r) ∈ (setChars true true T B false vals qs).chars ∧ r.status = OK := by
+  refine ⟨entryRes true false T B q, (mem_chars ..).2 ⟨q, hl, rfl⟩, ?_⟩
+  have hruns : runs true false T q = true := by simp [runs, hk, qvalue, hhas, hv]
+  have hco : (charOutcome q).1 = OK := by
+    unfold charOutcome
+    cases hc : q.cb <;> simp_all
+  have hr0 : (res0 true false T q).status = OK := by
+    simp only [res0, hk, hruns, if_true, Bool.not_true, Bool.false_eq_true, if_false]
+    by_cases h2 : ((charOutcome q).2.isSome && q.wr) = true <;> simp [h2, hco]
+  have hov : ∀ st, ov (override T B q.id) st = st := by
+    intro st
+    unfold override svcRes accRes
+    by_cases h1 : T.svcCb q.id.aid (T.svc q.id) = true <;> by_cases h2 : T.accCb q.id.aid = true <;>
+      simp [h1, h2, hs, ha, pyOr, ov, cbResult, OK]
+  simp only [entryRes, hk, Bool.and_false, Bool.not_false, Bool.and_self, if_true, hov, hr0]
+
+/-- **Nothing else happens.** A characteristic that no running entry names keeps its value and its
+    callback is not invoked; a service (an accessory) none of whose existing characteristics is named by an
+    answered entry gets no callback. In a refused timed write that is every characteristic, service and accessory. -/
+theorem C10_frame (T : Topo) (B : Behav) (expired : Bool) (vals : CharId → Val) (qs : List Query) :
+    (∀ c, (∀ q ∈ qs, q.id = c → (answered expired q && runs true expired T q) = false) →
+      (setChars true true T B expired vals qs).vals c = vals c ∧
+      charCalls (setChars true true T B expired vals qs).log c = []) ∧
+    (∀ a s, (∀ q ∈ qs, collected true expired T q = true → ¬ (q.id.aid = a ∧ T.svc q.id = s)) →
+      svcCalls (setChars true true T B expired vals qs).log a s = []) ∧
+    (∀ a, (∀ q ∈ qs, collected true expired T q = true → q.id.aid ≠ a) →
+      accCalls (setChars true true T B expired vals qs).log a = []) := by
+  refine ⟨?_, ?_, ?_⟩
+  · intro c h
+    have hno : ∀ p ∈ qs.filter (fun q => answered expired q && runs true expired T q), p.id ≠ c := by
+      intro p hp hid
+      have := h p (List.mem_filter.1 hp).1 hid
+      rw [(List.mem_filter.1 hp).2] at this; cases this
+    constructor
+    · rw [setChars_vals]; exact storeAll_not_mem _ _ _ hno
+    · rw [setChars_log, charCalls_append, charCalls_pass, List.append_nil]
+      exact charCalls_loop_not_mem _ _ hno
+  · intro a s h
+    rw [setChars_log, svcCalls_append, (upperCalls_loop _ _ _).1, List.nil_append, svcCalls_pass]
+    have : ¬ (a ∈ accsOf (upsOf true true expired T qs) ∧ s ∈ svcsOf T (upsOf true true expired T qs) a ∧
+        T.svcCb a s = true) := by
+      rintro ⟨_, hs, _⟩
+      obtain ⟨u, hu, h1, h2⟩ := (mem_svcsOf _ _ _ _).1 hs
+      obtain ⟨q, hq, hc, hid⟩ := (mem_upsOf_keys true true expired T qs u.1).1 (List.mem_map.2 ⟨u, hu, rfl⟩)
+      exact h q hq hc ⟨by rw [hid]; exact h1, by rw [hid]; exact h2⟩
+    simp only [this, if_false]
+  · intro a h
+    rw [setChars_log, accCalls_append, (upperCalls_loop _ _ 0).2, List.nil_append, accCalls_pass]
+    have : ¬ (a ∈ accsOf (upsOf true true expired T qs) ∧ T.accCb a = true) := by
+      rintro ⟨ha, _⟩
+      obtain ⟨u, hu, h1⟩ := (mem_accsOf _ _).1 ha
+      obtain ⟨q, hq, hc, hid⟩ := (mem_upsOf_keys true true expired T qs u.1).1 (List.mem_map.2 ⟨u, hu, rfl⟩)
+      exact h q hq hc (by rw [hid]; exact h1)
+    simp only [this, if_false]
 
 /-- **Independence.** What a request says about an entry and does for it (its answer, the stored
     value, the invocations of its own callback, and how often the callbacks of its service and
-    accessory run) does not depend on the other entries: two batches that both contain the entry
-    `q` — with arbitrary other entries, valid or invalid, with failing or healthy callbacks — and
-    agree on the outcome of the callbacks of `q`'s own service and accessory treat `q` alike. -/
+    accessory run) does not depend on the other entries: two batches (each naming no characteristic twice)
+    that both contain the entry `q` — with arbitrary other entries, valid or invalid, existing or not,
+    with failing or healthy callbacks — and agree on the outcome of the callbacks of `q`'s own service and
+    accessory treat `q` alike. -/
 theorem C10_independent (T : Topo) (B B' : Behav) (expired : Bool) (vals vals' : CharId → Val)
     (qs qs' : List Query) (hd : Distinct qs) (hd' : Distinct qs') (q : Query)
     (hq : q ∈ qs) (hq' : q ∈ qs') (hv : vals q.id = vals' q.id)
@@ -131,7 +280,7 @@ theorem C10_independent (T : Topo) (B B' : Behav) (expired : Bool) (vals vals' :
     (setChars true true T B expired vals qs).vals q.id = (setChars true true T B' expired vals' qs').vals q.id ∧
     charCalls (setChars true true T B expired vals qs).log q.id =
       charCalls (setChars true true T B' expired vals' qs').log q.id ∧
-    (expired = false → q.hasValue = true →
+    (expired = false → q.hasValue = true → T.known q.id = true →
       (svcCalls (setChars true true T B expired vals qs).log q.id.aid (T.svc q.id)).length =
         (svcCalls (setChars true true T B' expired vals' qs').log q.id.aid (T.svc q.id)).length ∧
       (accCalls (setChars true true T B expired vals qs).log q.id.aid).length =
@@ -144,23 +293,24 @@ theorem C10_independent (T : Topo) (B B' : Behav) (expired : Bool) (vals vals' :
   · intro r; rw [h1, h1', hres]
   · rw [h2, h2', hv]
   · rw [h3, h3']
-  · intro he hval
+  · intro he hval hk
     subst he
-    obtain ⟨a1, a2, _, _⟩ := upper_calls true T B vals qs q hq hval
-    obtain ⟨b1, b2, _, _⟩ := upper_calls true T B' vals' qs' q hq' hval
+    obtain ⟨a1, a2⟩ := upper_calls true T B vals qs q hq hval hk
+    obtain ⟨b1, b2⟩ := upper_calls true T B' vals' qs' q hq' hval hk
     rw [a1, a2, b1, b2]
     constructor
     · by_cases h : T.svcCb q.id.aid (T.svc q.id) = true <;> simp [h]
     · by_cases h : T.accCb q.id.aid = true <;> simp [h]
 
-/-- **204 exactly when everything succeeded and no write-response value is due.** The handler
-    answers 204 (the driver returned None) iff every answered entry has status 0 and for none of
-    them a write-response value is due (requested with "r", setter ran, callback returned a value);
-    otherwise it answers 207 with one entry per answered query. -/
+/-- **204 exactly when everything succeeded and no write-response value is due.** For any batch: the
+    handler answers 204 (the driver returned None) iff every entry of the answer has status 0 and for no
+    characteristic a write-response value is due (its last entry requested one with "r", the setter ran,
+    the callback returned a value); otherwise it answers 207 with the answer entries (one per written
+    characteristic, `C10_one_status`). -/
 theorem C10_204 (T : Topo) (B : Behav) (expired : Bool) (vals : CharId → Val) (qs : List Query) :
     (httpOfWrite (setChars true true T B expired vals qs) = 204 ↔
-      ∀ q ∈ qs, answered expired q = true →
-        (entryRes true expired T B q).status = OK ∧ ¬ WrDue true expired q) ∧
+      (∀ x ∈ (setChars true true T B expired vals qs).chars, x.2.status = OK) ∧
+      (∀ q, LastEntry expired qs q → ¬ WrDue true expired T q)) ∧
     (httpOfWrite (setChars true true T B expired vals qs) = 204 ↔
       (setChars true true T B expired vals qs).body = none) ∧
     (httpOfWrite (setChars true true T B expired vals qs) ≠ 204 →
@@ -168,21 +318,26 @@ theorem C10_204 (T : Topo) (B : Behav) (expired : Bool) (vals : CharId → Val) 
       (setChars true true T B expired vals qs).body = some (setChars true true T B expired vals qs).chars) := by
   have hb := setChars_body true true T B expired vals qs
   have hne : nonempty (setChars true true T B expired vals qs).chars = false ↔
-      ∀ q ∈ qs, answered expired q = true →
-        (entryRes true expired T B q).status = OK ∧ ¬ WrDue true expired q := by
+      (∀ x ∈ (setChars true true T B expired vals qs).chars, x.2.status = OK) ∧
+      (∀ q, LastEntry expired qs q → ¬ WrDue true expired T q) := by
     unfold nonempty
     rw [List.any_eq_false]
     constructor
-    · intro h q hq ha
-      have := h (q.id, entryRes true expired T B q) ((mem_chars ..).2 ⟨q, hq, ha, rfl⟩)
-      simp only [Bool.or_eq_true, decide_eq_true_eq, not_or, Option.isSome_iff_ne_none, ne_eq,
-        Decidable.not_not] at this
-      refine ⟨this.1, ?_⟩
-      rw [← res0_value_none]; exact this.2
-    · intro h x hx
-      obtain ⟨q, hq, ha, rfl⟩ := (mem_chars ..).1 hx
-      obtain ⟨h1, h2⟩ := h q hq ha
-      have h3 : (entryRes true expired T B q).value = none := (res0_value_none ..).2 h2
+    · intro h
+      have hx : ∀ x ∈ (setChars true true T B expired vals qs).chars, x.2.status = OK ∧ x.2.value = none := by
+        intro x hx
+        have := h x hx
+        simpa only [Bool.or_eq_true, decide_eq_true_eq, not_or, Option.isSome_iff_ne_none, ne_eq,
+          Decidable.not_not] using this
+      refine ⟨fun x hm => (hx x hm).1, ?_⟩
+      intro q hl
+      have := (hx (q.id, entryRes true expired T B q) ((mem_chars ..).2 ⟨q, hl, rfl⟩)).2
+      rw [← res0_value_none]; exact this
+    · rintro ⟨hs, hw⟩ x hx
+      obtain ⟨q, hl, rfl⟩ := (mem_chars ..).1 hx
+      have h1 := hs _ hx
+      have h3 : (entryRes true expired T B q).value = none := (res0_value_none ..).2 (hw q hl)
+      simp only at h1
       simp [h1, h3]
   refine ⟨?_, ?_, ?_⟩
   · rw [← hne]
@@ -203,7 +358,8 @@ theorem C10_204 (T : Topo) (B : Behav) (expired : Bool) (vals : CharId → Val) 
         with `p`, no loss of `c`, no newer prepare of `p` by `c` — and `now ≤ expiry`;
       * consumes the prepare whatever the outcome, and touches no other (connection, pid) pair;
       * when it is not executed: no value changes, no callback at any level runs, and every entry of
-        the request — and nothing else — is answered INVALID_VALUE_IN_REQUEST (−70410), as a 207. -/
+        the request — and nothing else — is answered INVALID_VALUE_IN_REQUEST (−70410; an entry that
+        names no characteristic at all: RESOURCE_DOES_NOT_EXIST), as a 207. -/
 theorem C10_timed (T : Topo) (s0 : State) (h0 : ∀ c p, s0.prep c p = none) (hrev : List Op)
     (c : Conn) (p : Pid) (b : Batch) (hp : b.pid = some p) :
     let s := runRev true true T s0 hrev
@@ -213,7 +369,7 @@ theorem C10_timed (T : Topo) (s0 : State) (h0 : ∀ c p, s0.prep c p = none) (hr
     (r.1.prep c p = none ∧ ∀ c' p', ¬ (c' = c ∧ p' = p) → r.1.prep c' p' = s.prep c' p') ∧
     (¬ live →
       r.1.vals = s.vals ∧ r.2.log = [] ∧
-      (∀ x, x ∈ r.2.chars ↔ ∃ q ∈ b.queries, x = (q.id, ⟨INVALID, none⟩)) ∧
+      (∀ x, x ∈ r.2.chars ↔ ∃ q ∈ b.queries, x = (q.id, ⟨if T.known q.id then INVALID else NOEXIST, none⟩)) ∧
       (b.queries ≠ [] → httpOfWrite r.2 = 207 ∧ r.2.body = some r.2.chars)) := by
   intro s live r
   have hexp : (popPid s c b.pid).1 = false ↔ live := by
@@ -258,9 +414,41 @@ theorem C10_timed (T : Topo) (s0 : State) (h0 : ∀ c p, s0.prep c p = none) (hr
         cases hq : b.queries with
         | nil => exact hne hq
         | cons q qs =>
-          have := (h204.1.1 h) q (by rw [hq]; exact List.mem_cons_self ..) (by simp [answered])
-          simp [entryRes, res0, runs, INVALID, OK] at this
+          have hm := (f3 (q.id, ⟨if T.known q.id then INVALID else NOEXIST, none⟩)).2
+            ⟨q, by rw [hq]; exact List.mem_cons_self .., rfl⟩
+          have := (h204.1.1 h).1 _ hm
+          by_cases hk : T.known q.id = true <;> simp [hk, INVALID, NOEXIST, OK] at this
       exact h204.2.2 this
+
+/-- **Every request in every reachable state.** After any history of prepare / advance / write / lose
+    operations, for any request `b` of any connection `c` — untimed or timed — an answer entry with status
+    0 implies that the request was executable (it carried no prepare id, or `c` holds a live prepare for
+    it), that it was processed exactly as the executed request `setChars … false` about which `C10_status`
+    speaks, and that the values it stored are the driver's state afterwards. -/
+theorem C10_status_every_request (T : Topo) (s0 : State) (h0 : ∀ c p, s0.prep c p = none) (hrev : List Op)
+    (c : Conn) (b : Batch) (ch : CharId) (res : Res)
+    (hm : (ch, res) ∈ (write true true T (runRev true true T s0 hrev) c b).2.chars) (hok : res.status = OK) :
+    let s := runRev true true T s0 hrev
+    (b.pid = none ∨ ∃ p e, b.pid = some p ∧ LivePrep true true T s0 hrev c p e ∧ s.now ≤ e) ∧
+    (write true true T s c b).2 = setChars true true T b.behav false s.vals b.queries ∧
+    (write true true T s c b).1.vals = (setChars true true T b.behav false s.vals b.queries).vals := by
+  intro s
+  cases hp : b.pid with
+  | none =>
+    refine ⟨Or.inl rfl, ?_, ?_⟩ <;> simp [s, write, popPid, hp]
+  | some p =>
+    have ht := C10_timed T s0 h0 hrev c p b hp
+    simp only at ht
+    by_cases hl : ∃ e, LivePrep true true T s0 hrev c p e ∧ (runRev true true T s0 hrev).now ≤ e
+    · obtain ⟨e, hl1, hl2⟩ := hl
+      have h2 := ht.1 ⟨e, hl1, hl2⟩
+      refine ⟨Or.inr ⟨p, e, rfl, hl1, hl2⟩, h2, ?_⟩
+      rw [← h2]; rfl
+    · obtain ⟨_, _, h3, _⟩ := ht.2.2 hl
+      obtain ⟨q, _, hx⟩ := (h3 (ch, res)).1 hm
+      have : res = ⟨if T.known q.id then INVALID else NOEXIST, none⟩ := congrArg Prod.snd hx
+      rw [this] at hok
+      by_cases hk : T.known q.id = true <;> simp [hk, INVALID, NOEXIST, OK] at hok
 
 /-- **Each prepare is usable once.** If connection `c` has sent a write carrying `p` and has not
     prepared `p` again since, a further write of `c` carrying `p` is not executed (at any time). -/
@@ -335,7 +523,8 @@ theorem C10_prepare (s : State) (c : Conn) (ttl : Option Nat) (pid : Option Pid)
 
 /-! ### fixtures for the counterexamples and examples -/
 
-def demoT : Topo := { svc := fun _ => 1, svcCb := fun _ _ => true, accCb := fun _ => true }
+def demoT : Topo := { svc := fun _ => 1, svcCb := fun _ _ => true, accCb := fun _ => true,
+                      known := fun c => c.aid ≤ 4 }
 def demoB : Behav := { svcRaises := fun _ _ => false, accRaises := fun _ => false }
 /-- Brightness := 150 on a 0..100 characteristic: accepted, stored as 100 -/
 def q150 : Query :=
@@ -388,6 +577,17 @@ example : httpOfWrite (setChars true true demoT demoB false (fun _ => "i:0") [qO
 /-- hypotheses of `C10_status` are met by `qOk` in the mixed batch -/
 example : ((qOk.id, (⟨0, none⟩ : Res)) ∈
     (setChars true true demoT demoB false (fun _ => "i:0") [qOk, qBad, qRaise, qResp]).chars) := by decide
+/-- a batch that names a characteristic twice (rejected value first, then a good one) and something that
+    is not a characteristic: one status each, the last entry decides, the ghost alone fails -/
+def qGhost : Query := { id := ⟨9, 2⟩, hasValue := true, value := some "i:1", wr := false, valid := some "i:1", cb := .absent }
+def qBadOk : Query := { qBad with id := ⟨2, 9⟩ }
+example : ¬ Distinct [qBadOk, qGhost, qOk] := by unfold Distinct; decide
+example : (setChars true true demoT demoB false (fun _ => "i:0") [qBadOk, qGhost, qOk]).chars =
+    [(⟨2, 9⟩, ⟨0, none⟩), (⟨9, 2⟩, ⟨-70409, none⟩)] := by decide
+example : LastEntry false [qBadOk, qGhost, qOk] qOk := by
+  unfold LastEntry; simp [answered, qBadOk, qBad, qGhost, qOk, LastBy]
+example : (setChars true true demoT demoB false (fun _ => "i:0") [qOk, qBadOk]).chars =
+    [(⟨2, 9⟩, ⟨-70402, none⟩)] := by decide
 /-- a live prepare exists after `prepare; advance 250` and is still usable at now = expiry -/
 example : LivePrep true true demoT st0 [Op.advance 250, Op.prepare 0 (some 250) (some 7)] 0 7 1250 :=
   ⟨[Op.advance 250], [], 250, rfl, by intro op h; simp at h; subst h; simp [Touches], rfl⟩
